@@ -233,6 +233,7 @@ Proof.
   - cbn [group_loop] in H. inv_bind H as [c1 s1] eq H1.
     destruct (transaction_bounded S _ _ _ _ _ _ _ H1 B K) as [B1 K1].
     destruct (e_validate E && _); [discriminate|].
+    destruct (negb (t_gidok (fst s))); [discriminate|].
     inv_bind H as [[c2 ss2] gb2] eq H2. injection H as <- _ _. eapply IH; eauto.
 Qed.
 
